@@ -808,7 +808,8 @@ func TestProp(t *testing.T) {
 			"opposite holes; centroid inside the bounding box. Line strings / multi-line strings (0-12 vertices, 1 in 50 with 250-1100; lattice or float; 1 vertex in 12 repeats its predecessor - a zero-length segment - and 1 in 12 revisits an earlier vertex; a third of the cases handed to geom multiplied exactly by 2^k, k in +-60 or -1000..900) for Length (compensated sum) and " +
 			"Distance (independent point-segment formula); Point.Buffer vertices; Bounds.Area/Centroid. Every polygon case is counted non-trivial (each is one orbit " +
 			"element of a shape with holes/members/orientation choice), line cases when the nearest feature is a segment interior or >=2 members, buffers with radius>0. " +
-			"Distinct by case hash.",
+			"Distinct by case hash." +
+			" Round 11: 'teeth' polygons (1 lattice polygon in 20): a small triangular hole at every vertex of a rectangle or L-shaped shell and at the middle of no, every, the first k or some of its sides.",
 		Assumptions: []string{"valid polygons only (holes strictly inside, nothing touching)", "tolerances: area 1e-12*maxabs^2, centroid 1e-11*maxabs^3/area (exact lattice: 1e-12 relative)"},
 		Gen:         gen,
 		Run:         run,
